@@ -210,7 +210,7 @@ class AddFields:
     @staticmethod
     def args(draw, t):
         n = len(t[0])
-        return {"defs": [[nm, draw(st.sampled_from(["const", "calc"]))] + ([draw(st.integers(0, n + 1))] if draw(st.booleans()) else [])
+        return {"defs": [[nm, draw(st.sampled_from(["const", "calc"]))] + ([draw(st.integers(-n - 1, n + 2))] if draw(st.booleans()) else [])
                          for nm in ["n1", "n2"][:draw(st.integers(1, 2))]], "missing": draw(st.sampled_from([None, "M", None, "M", 0, "", False]))}
 
     @staticmethod
@@ -683,22 +683,80 @@ class RowMap:
         return [("n", "row")] + [(len(r), tuple(r)) for r in t[1:]]
 
 
+@op("rowmapmany", dup=True)
+class RowMapMany:
+    """0, 1 or 2 output rows per input row (by a rule on the row's length), in input order."""
+
+    @staticmethod
+    def args(draw, t):
+        return {"style": draw(st.sampled_from(["generator", "list"]))}
+
+    @staticmethod
+    def run(t, a):
+        def gen_(row):
+            for j in range(len(row) % 3):
+                yield [j, len(row), tuple(row)]
+        f = gen_ if a["style"] == "generator" else (lambda row: [[j, len(row), tuple(row)] for j in range(len(row) % 3)])
+        return etl.rowmapmany(t, f, header=["j", "n", "row"])
+
+    @staticmethod
+    def ref(t, a):
+        return [("j", "n", "row")] + [(j, len(r), tuple(r)) for r in t[1:] for j in range(len(r) % 3)]
+
+
+NUMTEXT = ["1", "2.5", "1+2j", "x", "", None, " 3 ", "1e3", "0x10", 7, "-4", "1_0", "٣"]
+
+
+@op("convertnumbers", ragged=False)
+class ConvertNumbers:
+    """Every cell through int, float, complex in that order; what none of them accepts stays as it is (strict=False)."""
+
+    @staticmethod
+    def args(draw, t):
+        n = len(t[0])
+        return {"cells": [[draw(st.sampled_from(NUMTEXT)) for _ in range(n)] for _ in t[1:]]}
+
+    @staticmethod
+    def _tbl(t, a):
+        return [list(t[0])] + [list(r) for r in a["cells"]]
+
+    @staticmethod
+    def run(t, a):
+        return etl.convertnumbers(ConvertNumbers._tbl(t, a))
+
+    @staticmethod
+    def ref(t, a):
+        def parse(v):
+            for f in (int, float, complex):
+                try:
+                    return f(v)
+                except (ValueError, TypeError):
+                    pass
+            return v
+        return [tuple(t[0])] + [tuple(parse(v) for v in r) for r in a["cells"]]
+
+
 @op("sub")
 class SubOp:
     @staticmethod
     def args(draw, t):
-        return {"field": fieldspec(draw, t[0], max_n=1)[0], "count": draw(st.sampled_from([0, 1]))}
+        return {"field": fieldspec(draw, t[0], max_n=1)[0], "count": draw(st.sampled_from([0, 1, 2])),
+                "flags": draw(st.sampled_from([0, 0, "I"]))}
 
     @staticmethod
     def run(t, a):
-        return etl.sub(etl.convert(t, a["field"], conv("str")), a["field"], "[xa]", "Z", count=a["count"])
+        import re
+        kw = {"flags": re.I} if a.get("flags") == "I" else {}
+        return etl.sub(etl.convert(t, a["field"], conv("str")), a["field"], "[xa]", "Z", count=a["count"], **kw)
 
     @staticmethod
     def ref(t, a):
         import re
         k = a["field"]
         i = k if isinstance(k, int) else list(t[0]).index(k)
-        return [tuple(t[0])] + [tuple(re.sub("[xa]", "Z", "" if v is None else str(v), count=a["count"]) if j == i else v for j, v in enumerate(r)) for r in t[1:]]
+        fl = re.I if a.get("flags") == "I" else 0
+        return [tuple(t[0])] + [tuple(re.sub("[xa]", "Z", "" if v is None else str(v), count=a["count"], flags=fl) if j == i else v
+                                      for j, v in enumerate(r)) for r in t[1:]]
 
 
 class Accessors:
@@ -709,7 +767,8 @@ class Accessors:
         return {"which": cls.which,
                 "field": fieldspec(draw, t[0], max_n=2, min_n=2) if len(t[0]) >= 2 else None, "missing": draw(st.sampled_from([None, "M", None, "M", 0, "", False])),
                 # islice-style arguments, incl. a stop of exactly 0 (nothing), a bare stop, a step
-                "slice": draw(st.sampled_from([None, [1, None], [0, 2], [0], [2], [3, 0], [1, 0, 2], [0, None, 2], [None, 2], [1, 3, 1]]))}
+                "slice": draw(st.sampled_from([None, [1, None], [0, 2], [0], [2], [3, 0], [1, 0, 2], [0, None, 2], [None, 2], [1, 3, 1]])),
+                "tupleform": draw(st.booleans())}
 
     @staticmethod
     def run(t, a):
@@ -721,6 +780,8 @@ class Accessors:
         if w == "values2":
             if not f:
                 return [("v", x) for x in etl.values(t, 0, missing=m)]
+            if a.get("tupleform"):
+                return [("v", x) for x in etl.values(t, tuple(f), missing=m)]   # the fields as ONE tuple argument
             return [("v", x) for x in etl.values(t, *f, missing=m)]
         if w == "data":
             return [tuple(r) for r in etl.data(t, *sl)]
